@@ -121,7 +121,7 @@ def report():
     c = Counter(r[5] for r in p1)
     with open(f'{OUT}/RESULTS.md', 'w') as w:
         w.write('# Mutation analysis of the checks\n\n')
-        w.write(f'{len(p1)} single-point mutants (bin/mutgen: operator swaps, literal changes, negated conditions, deleted statements) of the five non-test source files; '
+        w.write(f'{len(p1)} single-point mutants (bin/mutgen: operator swaps, literal changes, negated conditions, deleted statements; second pass: Len/Cap, Length/Capacity, len/cap, src/dst receivers, swapped call arguments and slice bounds, return 0) of the five non-test source files; '
                 f'{c["nocompile"]} do not compile, {c["killed-by-tests"]} fail the pinned suite, **{c["survives-tests"]} compile and pass the suite**. '
                 f'Of those, {sum(1 for r in rows if r[6])} raise an alarm in at least one check of a property named in the mutated function\'s contract '
                 f'({sum(1 for r in rows if r[7])} with a failing input confirmed on the real code); {sum(1 for r in rows if not r[6])} are not noticed (classified below).\n\n')
